@@ -9,6 +9,10 @@ use std::rc::Rc;
 pub fn base_sources() -> Vec<(&'static str, &'static str)> {
     vec![
         ("lines", "Hello.\nSecond line. # t1\nThird <>\nline glued. # t2 # t3\n-> END\n"),
+        // the same `= ()` statement runs once over a list and once over a number: whatever the
+        // first execution leaves behind in the story's content shows in the second
+        ("list-reassign-a", "LIST L = a, b\nVAR y = a\n-> top\n=== top ===\n~ y = ()\nAll:{LIST_ALL(y)}.\n~ y = 0\n+ [again] -> top\n* [stop] -> END\n"),
+        ("list-reassign-b", "LIST L = a, b\nVAR y = 0\n-> top\n=== top ===\n~ y = ()\nAll:{LIST_ALL(y)}.\n~ y = a\n+ [again] -> top\n* [stop] -> END\n"),
         // pauses while a forked thread is still running (two threads on the call stack between
         // two lines) and while an expression has an operand waiting (function printing lines)
         (
